@@ -395,6 +395,14 @@ class Unit:
                 m = re.match(r'(\d+)\s+("(?:[^"\\]|\\.)*")\s*::\s*(.*)$', arg, re.S)
                 cid, t = self._cid(m.group(3), cur.name, 'wrap')
                 cur.wraps.append((cid, int(m.group(1)), json.loads(m.group(2)), t))
+            elif cmd == 'wrap_arm':
+                m = re.match(r'(\d+)\s+(\d+)\s*::\s*(.*)$', arg, re.S)
+                cid, t = self._cid(m.group(3), cur.name, 'wrap')
+                cur.arm_wraps.append((cid, int(m.group(1)), int(m.group(2)), t))
+            elif cmd == 'wrap_tail':
+                m = re.match(r'(\d+)\s+("(?:[^"\\]|\\.)*")\s*::\s*(.*)$', arg, re.S)
+                cid, t = self._cid(m.group(3), cur.name, 'wrap')
+                cur.tail_wraps.append((cid, int(m.group(1)), json.loads(m.group(2)), t))
             elif cmd == 'closure':
                 # closure <ordinal> <header> ;; requires [id] e ;; ensures [id] e
                 m = re.match(r'(\d+)\s+(.*)$', arg, re.S)
@@ -409,7 +417,7 @@ class Unit:
                 raise Undecided('template: unknown sub-directive %r' % s)
         for key in order:
             sp = specs[key]
-            if sp.clause_ids() or sp.ret or sp.prefix or sp.attrs or sp.loops or sp.extra_sig:
+            if sp.clause_ids() or sp.ret or sp.prefix or sp.attrs or sp.loops or sp.extra_sig or sp.arm_wraps or sp.tail_wraps:
                 text = splice_fn(text, sp)
                 ext = any('external_body' in a for a in sp.attrs)
                 if not ext:
@@ -527,6 +535,8 @@ def analyse(unit, gen_path, gen_text, res):
                 continue
             if sp.get('is_primary'):
                 prim_line = sp['line_start']
+            if not (sp.get('is_primary') or 'failed' in (sp.get('label') or '')):
+                continue   # e.g. "at the end of the function body": covers unrelated lines
             for ln in range(sp['line_start'], sp['line_end'] + 1):
                 for cid in marks.get(ln, []):
                     if cid not in ids:
